@@ -26,6 +26,13 @@
 //         5 / 6 = cancelled / deadline passing DURING the store call: the caller parks at gate "store" inside
 //         the redis GET of its flight (a go-redis hook added with redis.WithHook) and its context becomes
 //         done when it is released (event "ctxdone"), before the command goes to the store.
+//   flags: optional 5th component of the primitives' ops (kinds 0-3), bits:
+//         1 = this call is made FROM INSIDE the user function of the previous op of the same script (after that
+//             function's gate, before its "fe"): a nested call on another key is legal and must not wait for
+//             anything; chains nest to any depth;
+//         2 = run-through: the op has no call gate and its function has no gate (hundreds of calls, or hundreds of
+//             nesting levels, within one step of the controller; whoever blocks is seen blocked at that op).
+//         Such cases are judged on their event log only (the LTS has no nested calls).
 //   err -3: the user function ends its goroutine with runtime.Goexit (last op of a script only): the
 //         deferred epilogue of the call runs as for a panic; reported like a panicked call.
 // Events (logical clock): inv (call invoked), fs / fe (user function started / ended),
@@ -207,6 +214,7 @@ type gatedSF struct {
 	ctl   *sched.Ctl
 	noPre bool
 	post  bool
+	noGate func(actor, op int) bool
 }
 
 func (g *gatedSF) pre() {
@@ -214,7 +222,9 @@ func (g *gatedSF) pre() {
 		return
 	}
 	if a := g.ctl.Actor(); a >= 0 {
-		g.ctl.Gate(a, "pre", g.ctl.CurOp(a))
+		if op := g.ctl.CurOp(a); g.noGate == nil || !g.noGate(a, op) {
+			g.ctl.Gate(a, "pre", op)
+		}
 	}
 }
 
@@ -339,13 +349,25 @@ func runCase(c Case) (out Out) {
 	// instead of timing out.
 	ctl.MutexBlocked = func(stack string) bool { return strings.Contains(stack, "/core/syncx.") }
 
+	opFlags := func(op []int64) int64 {
+		if op[0] <= 3 && len(op) > 4 {
+			return op[4]
+		}
+		return 0
+	}
+	isNested := func(op []int64) bool { return opFlags(op)&1 != 0 }
+	runThrough := func(op []int64) bool { return opFlags(op)&2 != 0 }
+	// the "pre" gate in front of a ResourceManager's singleflight is skipped for run-through ops
+	noGate := func(a, i int) bool {
+		return a < len(c.Scripts) && i < len(c.Scripts[a]) && runThrough(c.Scripts[a][i])
+	}
 	var armed sync.Map
 	var insts [2]*instance
 	inst := func(key int64) *instance {
 		n := int(key/1000) % 2
 		if insts[n] == nil {
 			in := &instance{sf: syncx.NewSingleFlight(), lc: syncx.NewLockedCalls(), rm: syncx.NewResourceManager()}
-			in.rm.VerifWrapFlight(func(inner syncx.SingleFlight) syncx.SingleFlight { return &gatedSF{inner: inner, ctl: ctl} })
+			in.rm.VerifWrapFlight(func(inner syncx.SingleFlight) syncx.SingleFlight { return &gatedSF{inner: inner, ctl: ctl, noGate: noGate} })
 			insts[n] = in
 		}
 		return insts[n]
@@ -410,13 +432,18 @@ func runCase(c Case) (out Out) {
 	var wg sync.WaitGroup
 
 	// the user function: fs, gate, fe; then it returns or panics (e == codePanic)
+	// nested(tid, i): the ops of the script that are to be called from inside the function of op i
+	var nested func(tid, i int)
 	body := func(tid int, i int, grp, key, e int64) {
 		p := gauge(grp, key)
 		if n := atomic.AddInt32(p, 1); n > 1 {
 			report(fmt.Sprintf("two executions in progress for group %d key %d", grp, key))
 		}
 		ctl.Log(tid, "fs", i)
-		ctl.Gate(tid, "fn", i)
+		if !runThrough(c.Scripts[tid][i]) {
+			ctl.Gate(tid, "fn", i)
+		}
+		nested(tid, i)
 		if c.Free {
 			for s := 0; s < c.Spin*(tid+1+i); s++ {
 				if s%3 == 0 {
@@ -594,13 +621,29 @@ func runCase(c Case) (out Out) {
 		normal = true
 	}
 
+	nested = func(tid, i int) {
+		script := c.Scripts[tid]
+		if i+1 < len(script) && isNested(script[i+1]) {
+			// (the next op's own function calls nested again: a chain)
+			ctl.SetOp(tid, i+1)
+			ctl.Log(tid, "inv", i+1)
+			call(tid, i+1, script[i+1])
+			ctl.SetOp(tid, i)
+		}
+	}
+
 	for tid, script := range c.Scripts {
 		tid, script := tid, script
 		wg.Add(1)
 		ctl.Go(tid, func() {
 			defer wg.Done()
 			for i, op := range script {
-				ctl.Gate(tid, "call", i)
+				if i > 0 && isNested(op) {
+					continue // made from inside the previous call's function
+				}
+				if !runThrough(op) {
+					ctl.Gate(tid, "call", i)
+				}
 				ctl.SetOp(tid, i)
 				ctl.Log(tid, "inv", i)
 				call(tid, i, op)
